@@ -171,6 +171,8 @@ tls_config_free(struct tls_config *config)
 	free((char *)config->ca_mem);
 	free((char *)config->ca_path);
 	free((char *)config->ciphers);
+	free((char *)config->ocsp_file);
+	free(config->ocsp_mem);
 
 	free(config);
 }
